@@ -27,6 +27,11 @@ import os
 import re
 
 import evalnode as E
+import norm
+import parserspec as PS
+import pm
+import q
+from norm import last
 import fold
 import hir
 import partial
@@ -155,190 +160,271 @@ def run(prog, rep):
                  ("C05-R3", "wild-cards and domains only under the mode flag"), ("C05-R4", "look-ahead guards for E, A, 3, V; single name-character predicate"),
                  ("C05-R5", "whitespace handling")):
         rep.rule(r, t)
-    eng = terms.Engine(prog, inline=True, hooks=E.Hooks([], inline_names=INLINE_PARSER))
-    entry = prog.lib_fn(PARSER + "parse_hctl_tokens")
-    if entry is None:
-        rep.unresolved("C05-R1", "parse_hctl_tokens", "", "parser entry not found")
-        return
-    order = readme_precedence()
-    if not order:
-        rep.unresolved("C05-R1", "README/precedence", README, "precedence list not found in README.md")
-        return
-    # follow the fall-through chain
-    es = eng.summary(entry)
-    first = [prog.resolve_local(entry.crate, x.callee) for x in es.sites if x.kind == "call" and isinstance(x.callee, str)
-             and prog.resolve_local(entry.crate, x.callee) is not None and is_level_fn(prog.resolve_local(entry.crate, x.callee))]
-    if len(first) != 1:
-        rep.unresolved("C05-R1", "entry/first-level", f"{entry.file}:{entry.line}", "entry does not delegate to exactly one level")
-        return
-    levels = []
-    cur = first[0]
-    seen = set()
-    while cur is not None and cur.qual not in seen and len(levels) < 20:
-        seen.add(cur.qual)
-        rep.functions.add(cur.qual)
-        lv = analyse_level(prog, eng, cur)
-        levels.append(lv)
-        cur = lv.fall[0] if lv.fall else None
-    found = []
-    for lv in levels[:-1]:
-        c = lv.cls
-        if c is None:
-            found.append("?")
-        elif c == {"hybrid"} or c == {"unary"}:
-            found.append(next(iter(c)))
-        elif c == {"EU", "AU", "EW", "AW"}:
-            found.append("bintemp")
-        elif len(c) == 1:
-            found.append(next(iter(c)))
-        else:
-            found.append("+".join(sorted(c)))
-    rep.check(found == order, "C05-R1", "chain/order", f"{first[0].file}:{first[0].line}",
-              f"levels from weakest to tightest: {found}", f"parser levels search {found}; README documents {order}")
-    all_binary = set()
-    for lv, nxt in zip(levels[:-1], levels[1:]):
-        f = lv.fn
-        where = f"{f.file}:{f.line}"
-        cname = "+".join(sorted(lv.cls)) if lv.cls else "?"
-        key = f"level:{cname}"
-        if lv.pos is None or lv.cls is None:
-            rep.unresolved("C05-R1", key, where, f"{f.name}: the searched operator class could not be recovered")
-            continue
-        it = lv.pos[2]
-        scans_all = it[0] == "call" and it[1].rsplit("::", 1)[-1] == "iter" and it[2] == (lv.tokens,)
-        rep.check(scans_all and not lv.rpos, "C05-R1", key + "/first", where, "splits at the FIRST occurrence in the whole slice",
-                  "the operator position is not the first occurrence over the whole token slice")
-        rep.check(len(f.params) == 1, "C05-R1", key + "/no-mode", where, "level has no mode parameter", "parser level takes extra parameters")
-        if lv.cls <= {"hybrid", "unary"}:
-            good = lv.suffix is not None and lv.suffix[0] is f and lv.prefix is None and lv.fall is not None and lv.fall[0] is nxt.fn
-            rep.check(good, "C05-R1", key + "/calls", where, "prefix operator: suffix -> same level, otherwise fall through to the next level",
-                      f"{f.name}: suffix goes to {lv.suffix[0].name if lv.suffix else None}, prefix parsed by {lv.prefix[0].name if lv.prefix else None}")
-            # constructor arguments: child from the suffix parse, operator data from tokens[i]
-            if lv.ctor and lv.suffix:
-                a = lv.ctor[1].args
-                tok = ("index", lv.tokens, lv.idx)
-                child_ok = any(x == lv.suffix[1].term for x in subterms(a[0]))
-                data_ok = all(any(x == tok for x in subterms(y)) for y in a[1:])
-                rep.check(child_ok and data_ok, "C05-R1", key + "/node", lv.ctor[1].where(), "node = ctor(parse(suffix), data of tokens[i])",
-                          "constructed node does not use parse(tokens[i+1..]) as child and tokens[i] as operator")
-            else:
-                rep.unresolved("C05-R1", key + "/node", where, "constructor call not found")
-            # R2: Err <=> i > 0
-            check_prefix_guard(rep, lv, key)
-        else:
-            all_binary |= lv.cls
-            good = (lv.prefix is not None and lv.prefix[0] is nxt.fn and lv.suffix is not None and lv.suffix[0] is f
-                    and lv.fall is not None and lv.fall[0] is nxt.fn)
-            rep.check(good, "C05-R1", key + "/calls", where, "binary level: prefix -> next tighter level, suffix -> same level (right associative)",
-                      f"{f.name}: prefix -> {lv.prefix[0].name if lv.prefix else None}, suffix -> {lv.suffix[0].name if lv.suffix else None}, "
-                      f"fall-through -> {lv.fall[0].name if lv.fall else None}; expected {nxt.fn.name}, {f.name}, {nxt.fn.name}")
-            if lv.ctor and lv.prefix and lv.suffix:
-                a = lv.ctor[1].args
-                l_ok = any(x == lv.prefix[1].term for x in subterms(a[0])) and not any(x == lv.suffix[1].term for x in subterms(a[0]))
-                r_ok = any(x == lv.suffix[1].term for x in subterms(a[1])) and not any(x == lv.prefix[1].term for x in subterms(a[1]))
-                op = a[2]
-                if op[0] == "ctor":
-                    op_ok = {str(op[1]).rsplit("::", 1)[-1]} == lv.cls
-                else:
-                    op_ok = any(x == ("index", lv.tokens, lv.idx) for x in subterms(op))
-                rep.check(l_ok and r_ok and op_ok and lv.ctor[0].name == "mk_binary", "C05-R1", key + "/node", lv.ctor[1].where(),
-                          "node = mk_binary(parse(prefix), parse(suffix), searched operator)",
-                          f"left from prefix={l_ok}, right from suffix={r_ok}, operator is the searched one={op_ok}")
-            else:
-                rep.unresolved("C05-R1", key + "/node", where, "constructor / operand calls not found")
-    binops = {v["name"] for v in prog.adts.get("preprocessing::operator_enums::BinaryOp", {}).get("variants", [])}
-    rep.check(binops and all_binary == binops, "C05-R1", "coverage/BinaryOp", "", f"every BinaryOp variant has exactly one level ({sorted(all_binary)})",
-              f"BinaryOp variants without a level: {sorted(binops - all_binary)}; unknown: {sorted(all_binary - binops)}")
-    check_terminal(prog, rep, levels[-1], entry, first[0])
+    check_levels(prog, rep)
     rep.floor("C05-R1", 30)
     rep.floor("C05-R2", 3)
     check_tokenizer(prog, rep)
 
 
-def check_prefix_guard(rep, lv, key):
-    f, s = lv.fn, lv.summ
-    errs = [r for r in s.returns if r[5] == "return" and r[0][0] == "ctor" and str(r[0][1]).endswith("Err")]
-    where = f"{f.file}:{f.line}"
-    if not errs:
-        rep.violation("C05-R2", key + "/prefix-empty", where,
-                      f"{f.name} never rejects tokens placed before the first {'/'.join(sorted(lv.cls))} operator: they are silently dropped")
-        return
-    gt = ("bin", ">", lv.idx, ("lit", 0))
+def unswitch(t):
+    """`match x { P1 => a, P2 => b, _ => c }` as the decision list `if x is P1 { a } else if x is P2 { b } else { c }`."""
+    if not isinstance(t, tuple) or not t:
+        return t
+    if t[0] == "hof":
+        return t              # predicates of searches are evaluated, not rewritten
+    r = tuple(unswitch(x) if isinstance(x, tuple) else x for x in t)
+    if r[0] == "switch":
+        scrut, arms = r[1], r[2]
+        acc = None
+        for (d, g), v in reversed(arms):
+            if d[0] == "wild" and g is None:
+                acc = v
+                continue
+            c = ("matches", scrut, d)
+            if g is not None:
+                c = ("bin", "&&", c, g)
+            acc = v if acc is None else ("ite", c, v, acc)
+        return acc if acc is not None else r
+    return r
+
+
+def level_cases(lv):
+    import norm
+    nz = norm.Normalizer()
+    return PS.leaves(nz(unswitch(lv.ret)))
+
+
+def is_propagation(leaf):
+    """Err(e) where e is the error of a nested call: the `?` of that call."""
+    return leaf[0] == "ctor" and last(leaf[1]) == "Err" and len(leaf[2]) == 1 and leaf[2][0][0] == "proj" and last(leaf[2][0][2]) == "Err"
+
+
+def check_levels(prog, rep):
     import setalg
+    entry, lvs, eng = PS.chain(prog)
+    if entry is None or not lvs:
+        rep.unresolved("C05-R1", "parse_hctl_tokens", "", "parser entry or its first level not found")
+        return
+    order = readme_precedence()
+    if not order:
+        rep.unresolved("C05-R1", "README/precedence", README, "precedence list not found in README.md")
+        return
+    for lv in lvs:
+        rep.functions.add(lv.fn.qual)
+    first = lvs[0].fn
+    found = [PS.class_name(lv.cls) for lv in lvs[:-1]]
+    rep.check(found == order, "C05-R1", "chain/order", f"{first.file}:{first.line}",
+              f"levels from weakest to tightest: {found}", f"parser levels search {found}; README documents {order}")
+    all_binary = set()
     alg = setalg.Alg()
-    found_pos = ("atom", "FOUND")
-    GT = ("atom", "GT")
+    for lv, nxt in zip(lvs[:-1], lvs[1:]):
+        f = lv.fn
+        where = f"{f.file}:{f.line}"
+        cname = PS.class_name(lv.cls)
+        key = f"level:{cname}"
+        if lv.pos is None or lv.cls is None or not lv.cls:
+            rep.unresolved("C05-R1", key, where, f"{f.name}: the searched operator class could not be recovered")
+            continue
+        rep.check(lv.scans_all and not lv.rpos and lv.n_searches == 1, "C05-R1", key + "/first", where, "splits at the FIRST occurrence in the whole slice",
+                  "the operator position is not the first occurrence over the whole token slice")
+        rep.check(len(f.params) == 1, "C05-R1", key + "/no-mode", where, "level has no mode parameter", "parser level takes extra parameters")
+        tokens, i = lv.tokens, lv.idx
+        FOUND, GT = ("atom", "FOUND"), ("atom", "GT")
+        prefix_kind = all(c.split(":")[0] in ("Hybrid", "Unary") for c in lv.cls)
 
-    def conv(t):
-        if t == gt or t == ("bin", "!=", lv.idx, ("lit", 0)) or t == ("bin", ">=", lv.idx, ("lit", 1)):
-            return GT
-        if t[0] == "not":
-            return ("not", conv(t[1]))
-        if t[0] == "bin" and t[1] in ("&&", "||"):
-            return ("and" if t[1] == "&&" else "or", conv(t[2]), conv(t[3]))
-        if t[0] == "matches" and t[1] == ("index", lv.tokens, ("bin", "-", lv.idx, ("lit", 1))):
-            c = token_class(("matches", None, t[2]))
-            if c is not None and c <= lv.cls:
-                return setalg.FALSE          # tokens[i-1] cannot satisfy the searched predicate: i is its first position
-            return ("atom", ("prev", repr(t[2])))
-        if t[0] == "matches" and t[1] == lv.pos:
-            return found_pos
-        return ("atom", ("other", repr(t)))
+        def conv(t):
+            if t == ("matches", lv.pos, norm.SOME_DESC):
+                return FOUND
+            if t[0] == "not":
+                return ("not", conv(t[1]))
+            if t[0] == "bin" and t[1] in ("&&", "||"):
+                return ("and" if t[1] == "&&" else "or", conv(t[2]), conv(t[3]))
+            if t[0] == "bin" and t[1] in (">", "!=", ">=", "<", "==", "<="):
+                a_, b_ = t[2], t[3]
+                for x, y, op in ((a_, b_, t[1]), (b_, a_, {">": "<", "<": ">", ">=": "<=", "<=": ">=", "==": "==", "!=": "!="}[t[1]])):
+                    if pm.strip(x) == i and y[0] == "lit":
+                        v = int(y[1]) if not isinstance(y[1], (str, bool)) else None
+                        if (op, v) in ((">", 0), ("!=", 0), (">=", 1)):
+                            return GT
+                        if (op, v) in (("==", 0), ("<", 1), ("<=", 0)):
+                            return ("not", GT)
+            if t[0] == "matches" and pm.strip(t[1])[0] == "index" and pm.strip(t[1])[1] == tokens:
+                idx = pm.strip(t[1])[2]
+                prev = idx == ("bin", "-", i, ("lit", 1))
+                if prev:
+                    c = PS.desc_class(prog, t[2])
+                    if c is not None and c <= lv.cls:
+                        return setalg.FALSE          # tokens[i-1] cannot satisfy the searched predicate: i is its first position
+                    return ("atom", ("prev", repr(t[2])))
+            q_ok = q.is_ok_test(t)
+            if q_ok is not None and PS.level_call(prog, f, q_ok) is not None:
+                return setalg.TRUE               # a nested level succeeded: the success path is described
+            return ("atom", ("other", repr(t)))
 
-    cond = setalg.FALSE
-    for r in errs:
-        e = setalg.TRUE
-        for c in r[1]:
-            if c[0] == "if":
-                x = conv(c[1])
-                e = ("and", e, x if c[2] else ("not", x))
-            elif c[0] == "match" and c[1] == lv.pos:
-                e = ("and", e, found_pos if c[3] else ("not", found_pos))
-        cond = ("or", cond, e)
-    want = ("and", found_pos, GT)
-    ok = alg.equivalent(cond, want)
-    rep.check(ok, "C05-R2", key + "/prefix-empty", f"{f.file}:{errs[0][4].get('sp', [f.line])[0]}",
-              "returns Err exactly when tokens precede the operator (i > 0)",
-              f"{f.name} returns Err only under `{ppc(errs[0][1])[-160:]}`; any non-empty prefix tokens[..i] must be rejected, "
-              "otherwise the tokens before the operator are silently dropped")
+        kinds = {"fall": setalg.FALSE, "node": setalg.FALSE, "err": setalg.FALSE, "other": setalg.FALSE}
+        nodes = []
+        for conds, leaf in level_cases(lv):
+            if is_propagation(leaf):
+                continue
+            e = setalg.TRUE
+            for c, pol in conds:
+                x = conv(c)
+                e = ("and", e, x if pol else ("not", x))
+            lc = PS.level_call(prog, f, leaf)
+            if lc is not None and lc[1] == tokens and lc[0] is nxt.fn:
+                kinds["fall"] = ("or", kinds["fall"], e)
+            elif leaf[0] == "ctor" and last(leaf[1]) == "Ok" and leaf[2] and pm.strip(leaf[2][0])[0] == "call" and last(pm.strip(leaf[2][0])[1]) in ("mk_binary", "mk_unary", "mk_hybrid"):
+                kinds["node"] = ("or", kinds["node"], e)
+                nodes.append((conds, pm.strip(leaf[2][0])))
+            elif leaf[0] == "ctor" and last(leaf[1]) == "Err":
+                kinds["err"] = ("or", kinds["err"], e)
+            else:
+                kinds["other"] = ("or", kinds["other"], e)
+        try:
+            fall_ok = alg.equivalent(kinds["fall"], ("not", FOUND))
+            if prefix_kind:
+                node_ok = alg.equivalent(kinds["node"], ("and", FOUND, ("not", GT)))
+                err_ok = alg.equivalent(kinds["err"], ("and", FOUND, GT))
+            else:
+                node_ok = alg.equivalent(kinds["node"], FOUND)
+                err_ok = alg.equivalent(kinds["err"], setalg.FALSE)
+            other_ok = alg.equivalent(kinds["other"], setalg.FALSE)
+        except ValueError:
+            fall_ok = node_ok = err_ok = other_ok = False
+        # operands of the node
+        zero = lambda t: norm.Normalizer()(terms.replace(t, i, ("lit", terms.Int(0))))       # noqa: E731
+        tok_i = ("index", tokens, i)
+        SUF = PS.slice_from(tokens, ("bin", "+", i, ("lit", terms.Int(1))))
+        PRE = PS.slice_to(tokens, i)
+
+        def same_under(t, want, allow_zero):
+            t = pm.strip(t)
+            return t == want or (allow_zero and zero(t) == zero(want))
+
+        def payload(t, variant, k):
+            """t is field k of tokens[i] seen as `variant`."""
+            t = pm.strip(t)
+            return t[0] == "proj" and last(t[2]) == variant and t[3] == k and same_under(t[1], tok_i, prefix_kind)
+        ops_ok = bool(nodes)
+        why_node = ""
+        for conds, nd in nodes:
+            a = nd[2]
+            name = last(nd[1])
+            if not prefix_kind:
+                la, lb = PS.level_call(prog, f, a[0]), PS.level_call(prog, f, a[1])
+                l_ok = name == "mk_binary" and la is not None and la[0] is nxt.fn and la[1] == PRE
+                r_ok = name == "mk_binary" and lb is not None and lb[0] is f and lb[1] == SUF
+                op = pm.strip(a[2]) if len(a) > 2 else ("unk",)
+                if op[0] == "ctor":
+                    op_ok = {"Binary:" + last(op[1])} == lv.cls
+                else:
+                    op_ok = payload(op, "Binary", 0)
+                if not (l_ok and r_ok and op_ok):
+                    ops_ok = False
+                    why_node = (f"left operand parsed by {la[0].name if la else None} on the prefix={l_ok}, right operand parsed by {lb[0].name if lb else None} on the suffix={r_ok} "
+                                f"(expected {nxt.fn.name} / {f.name}: right associative), operator is the searched one={op_ok}")
+            else:
+                la = PS.level_call(prog, f, a[0])
+                c_ok = la is not None and la[0] is f and same_under(la[1], SUF, True)
+                if name == "mk_unary" and lv.cls and all(c.startswith("Unary") for c in lv.cls):
+                    d_ok = len(a) == 2 and payload(a[1], "Unary", 0)
+                elif name == "mk_hybrid" and all(c.startswith("Hybrid") for c in lv.cls):
+                    d_ok = len(a) == 4 and payload(a[1], "Hybrid", 1) and payload(a[2], "Hybrid", 2) and payload(a[3], "Hybrid", 0)
+                else:
+                    d_ok = False
+                if not (c_ok and d_ok):
+                    ops_ok = False
+                    why_node = f"child parsed by the same level on tokens[i+1..]={c_ok}; operator data taken from tokens[i]={d_ok}"
+        if prefix_kind:
+            rep.check(fall_ok and node_ok and other_ok, "C05-R1", key + "/calls", where, "prefix operator: operator first -> node over the rest parsed by the same level; no operator -> next level",
+                      f"{f.name}: falls through to {nxt.fn.name} exactly when nothing is found={fall_ok}; builds the node exactly when the operator is the first token={node_ok}; "
+                      f"no other outcome={other_ok}")
+            rep.check(ops_ok, "C05-R1", key + "/node", where, "node = ctor(parse(tokens[i+1..]) by the same level, data of tokens[i])", why_node or "no node is built")
+            rep.check(err_ok, "C05-R2", key + "/prefix-empty", where, "returns Err exactly when tokens precede the operator (i > 0)",
+                      f"{f.name} does not return Err exactly when tokens precede the first {cname} operator (i > 0): tokens before the operator are silently dropped, "
+                      "or a well-formed prefix operator is rejected")
+        else:
+            all_binary |= lv.cls
+            rep.check(fall_ok and node_ok and err_ok and other_ok, "C05-R1", key + "/calls", where,
+                      "binary level: operator found -> node; otherwise the next tighter level on the same tokens",
+                      f"{f.name}: falls through to {nxt.fn.name} exactly when no operator is found={fall_ok}; builds the node exactly when one is found={node_ok}; "
+                      f"no rejection of its own={err_ok}; no other outcome={other_ok}")
+            rep.check(ops_ok, "C05-R1", key + "/node", where, "node = mk_binary(next level(prefix), same level(suffix), searched operator): right associative", why_node or "no node is built")
+    binops = {"Binary:" + v["name"] for v in prog.adts.get("preprocessing::operator_enums::BinaryOp", {}).get("variants", [])}
+    rep.check(bool(binops) and all_binary == binops, "C05-R1", "coverage/BinaryOp", "", f"every BinaryOp variant has exactly one level ({sorted(all_binary)})",
+              f"BinaryOp variants without a level: {sorted(binops - all_binary)}; unknown: {sorted(all_binary - binops)}")
+    check_terminal(prog, rep, lvs[-1], entry, first)
+
+
+def terminal_facts(prog, lv, entry, first):
+    """Facts about the terminal level from its decision tree."""
+    f = lv.fn
+    tokens = lv.tokens
+    tok0 = ("index", tokens, ("lit", terms.Int(0)))
+    one = ("bin", "==", ("call", "#len", (tokens,)), ("lit", terms.Int(1)))
+    facts = {"problems": [], "atoms": {}, "consts": {True: set(), False: set()}, "group": 0}
+    for conds, leaf in level_cases(lv):
+        if is_propagation(leaf):
+            continue
+        produces = (leaf[0] == "ctor" and last(leaf[1]) == "Ok") or PS.level_call(prog, f, leaf) is not None
+        if not produces:
+            continue
+        flat = []
+        for c, pol in conds:
+            flat += q.conds([("if", c, pol)])
+        single = any(pol and (t == one or (t[0] == "bin" and t[1] == "==" and {t[2], t[3]} == {one[2], one[3]})) for t, pol in flat)
+        if not single:
+            facts["problems"].append(f"a formula is produced ({pt(leaf)[:60]}) without the slice having exactly one token")
+        lc = PS.level_call(prog, f, leaf)
+        if lc is not None:
+            inner = ("proj", tok0, norm.SOME, 0)
+            arg = pm.strip(lc[1])
+            is_group = arg[0] == "proj" and last(arg[2]) == "Tokens" and arg[3] == 0 and pm.strip(arg[1]) == tok0 and lc[0] in (entry, first)
+            if is_group:
+                facts["group"] += 1
+            else:
+                facts["problems"].append(f"the terminal level delegates to {lc[0].name}({pt(lc[1])[:60]})")
+            continue
+        mk = pm.strip(leaf[2][0]) if leaf[2] else ("unk",)
+        if mk[0] != "call":
+            facts["problems"].append(f"the terminal level produces {pt(leaf)[:80]}")
+            continue
+        name = last(mk[1])
+        facts["atoms"].setdefault(name, []).append((flat, mk))
+        if name == "mk_constant" and mk[2] and mk[2][0][0] == "lit" and isinstance(mk[2][0][1], bool):
+            # the spellings: string literals the token's name is compared with on the way here
+            for t, pol in flat:
+                if not pol:
+                    continue
+                for y in [t] + list(subterms(t)):
+                    if y[0] == "bin" and y[1] == "==":
+                        for side in (y[2], y[3]):
+                            if side[0] == "lit" and isinstance(side[1], str):
+                                facts["consts"][mk[2][0][1]].add(side[1])
+                    if y[0] == "matches":
+                        ds = y[2][1] if y[2][0] == "or" else (y[2],)
+                        for d in ds:
+                            if d[0] == "lit" and isinstance(d[1], str):
+                                facts["consts"][mk[2][0][1]].add(d[1])
+    return facts
 
 
 def check_terminal(prog, rep, lv, entry, first):
-    f, s = lv.fn, lv.summ
+    f = lv.fn
     where = f"{f.file}:{f.line}"
-    tokens = ("param", f.param_names()[0])
-    tok0 = ("index", tokens, ("lit", 0))
-    oks = [r for r in s.returns if r[5] in ("return", "tail")]
-    problems = []
-    # every Ok-producing path is under len == 1
-    for r in oks:
-        t = r[0]
-        produces_ok = any(x[0] == "ctor" and str(x[1]).endswith("Ok") for x in subterms(t)) or any(x[0] in ("call", "rec") and is_level_call(prog, f, x) for x in subterms(t))
-        if not produces_ok:
-            continue
-        one = any(c[0] == "if" and c[2] and c[1] == ("bin", "==", ("call", c[1][2][1] if c[1][0] == "bin" and c[1][2][0] == "call" else "", (tokens,)), ("lit", 1)) for c in r[1]
-                  if c[0] == "if" and c[1][0] == "bin")
-        if not one:
-            problems.append(f"a formula is produced at line {r[4].get('sp', [0])[0]} without the slice having exactly one token")
-    # parenthesised group: re-enter the top level with the inner tokens, result returned unchanged
-    grp = [r for r in oks if any(c[0] == "match" and c[3] and c[1] == tok0 and c[2][0] == "var" and str(c[2][1]).endswith("HctlToken::Tokens") for c in r[1])]
-    inner = ("proj", tok0, "preprocessing::tokenizer::HctlToken::Tokens", 0)
-    g_ok = len(grp) == 1 and grp[0][0][0] in ("call", "rec") and grp[0][0][2] == (inner,) and \
-        prog.resolve_local(f.crate, grp[0][0][1]) in (entry, first) or (len(grp) == 1 and grp[0][0][0] == "rec" and grp[0][0][2] == (inner,))
-    if not g_ok:
+    facts = terminal_facts(prog, lv, entry, first)
+    problems = list(facts["problems"])
+    if facts["group"] != 1:
         problems.append("a parenthesised group is not parsed by re-entering the top level on its inner tokens and returning that result unchanged")
     rep.check(not problems, "C05-R2", "terminal/single-token", where, "terminal level: exactly one token; group -> top level unchanged", "; ".join(problems))
-    # atoms
-    for variant, ctor in (("Var", "mk_variable"), ("WildCardProp", "mk_wild_card")):
-        rs = [r for r in oks if any(c[0] == "match" and c[3] and c[1] == tok0 and variant in repr(c[2]) for c in r[1])]
-        want_arg = None
-        good = len(rs) == 1 and any(x[0] == "call" and x[1].endswith(ctor) for x in subterms(rs[0][0]))
-        rep.check(good, "C05-R1", f"terminal/{variant}", where, f"{variant} token -> {ctor}(name)", f"{variant} token is not turned into {ctor}(name)")
-
-
-def is_level_call(prog, f, x):
-    tgt = prog.resolve_local(f.crate, x[1]) if isinstance(x[1], str) else None
-    return tgt is not None and (is_level_fn(tgt) or tgt.name == "parse_hctl_tokens")
+    tok0 = ("index", lv.tokens, ("lit", terms.Int(0)))
+    for variant, ctor in (("Var", "mk_variable"), ("WildCardProp", "mk_wild_card"), ("Prop", "mk_proposition")):
+        rs = facts["atoms"].get(ctor, [])
+        good = len(rs) == 1
+        if good:
+            arg = pm.strip(rs[0][1][2][0])
+            good = arg[0] == "proj" and last(arg[2]) == variant and pm.strip(arg[1])[0] == "proj" and last(pm.strip(arg[1])[2]) == "Atom" and pm.strip(pm.strip(arg[1])[1]) == tok0
+        rep.check(good, "C05-R1", f"terminal/{variant}", where, f"{variant} token -> {ctor}(name)", f"{variant} token is not turned into {ctor}(its name)")
 
 
 # ------------------------------------------------------------------------------------------------
@@ -575,28 +661,10 @@ def check_guard_classes(prog, rep, ieng, tk, ch, g, where):
 
 def parser_constants(prog):
     """((terminal level fn, its summary), {True: spellings, False: spellings}) - the literals the parser maps to constants."""
-    term_fn = None
-    peng = terms.Engine(prog, inline=False)
-    for f in prog.lib_fns():
-        if f.path.startswith("preprocessing::parser::"):
-            fs = peng.summary(f)
-            if any(x.kind == "call" and x.is_call_to("mk_constant") for x in fs.sites):
-                term_fn = (f, fs)
+    entry, lvs, eng = PS.chain(prog)
     table = {True: set(), False: set()}
-    if term_fn is None:
+    if entry is None or not lvs:
         return None, table
-    f, fs = term_fn
-    # the return value is a decision tree over string comparisons
-    for r in fs.returns:
-        for y in [r[0]] + list(subterms(r[0])):
-            if y[0] == "ite":
-                strs = {z[3][1] for z in [y[1]] + list(subterms(y[1])) if z[0] == "bin" and z[1] == "==" and z[3][0] == "lit" and isinstance(z[3][1], str)}
-                strs |= {z[2][1] for z in [y[1]] + list(subterms(y[1])) if z[0] == "bin" and z[1] == "==" and z[2][0] == "lit" and isinstance(z[2][1], str)}
-                only_or = all(z[1] in ("==", "||") for z in [y[1]] + list(subterms(y[1])) if z[0] == "bin")
-                then = y[2]
-                mk = [z for z in [then] + list(subterms(then)) if z[0] == "call" and z[1].endswith("mk_constant")]
-                if strs and mk and only_or and then[0] == "ctor":
-                    val = mk[0][2][0]
-                    if val[0] == "lit" and isinstance(val[1], bool) and len(mk) == 1:
-                        table[val[1]] |= strs
-    return term_fn, table
+    lv = lvs[-1]
+    facts = terminal_facts(prog, lv, entry, lvs[0].fn)
+    return (lv.fn, lv.summ), facts["consts"]
